@@ -40,6 +40,19 @@ func (v *Verifier) monitorFor(st types.Type, field string) *Monitor {
 	return nil
 }
 
+func (v *Verifier) monitorForType(t types.Type) *Monitor {
+	n, ok := t.(*types.Named)
+	if !ok {
+		return nil
+	}
+	for _, m := range v.db.Monitors {
+		if m.TypeName == n.Obj().Name() && n.Obj().Pkg() != nil && n.Obj().Pkg().Path() == m.PkgPath {
+			return m
+		}
+	}
+	return nil
+}
+
 func (e *Exec) mutexCall(s *State, ins ssa.Instruction, op string, mu Value) {
 	fp, ok := mu.(*FieldPtr)
 	if !ok {
@@ -72,6 +85,7 @@ func (e *Exec) mutexCall(s *State, ins ssa.Instruction, op string, mu Value) {
 			s.assume(e.evalMonitorInv(mon, inv, objT, obj, s))
 		}
 		e.regionStart[key] = s.clone()
+		e.lastRegionStart = e.regionStart[key]
 	case "unlock", "runlock":
 		idx := -1
 		for i, h := range s.held {
@@ -93,6 +107,18 @@ func (e *Exec) mutexCall(s *State, ins ssa.Instruction, op string, mu Value) {
 			if e.quiet == 0 {
 				e.obls = append(e.obls, &Obligation{Name: name, Kind: "monitor", Pos: ins.Pos(), Goal: g, Hyp: s.pc, Func: e.funcKey,
 					Text: inv.Text, Props: unionProps(e.props, mon.Props, inv.Props), Mode: e.mode, exec: e})
+			}
+		}
+		if rs := e.regionStart[key]; rs != nil {
+			for i, tr := range mon.Transitions {
+				vars := map[string]specVar{"s": {obj, types.NewPointer(objT)}, "self": {obj, types.NewPointer(objT)}}
+				cc := calleeCtx{e.v.pkgByPath(mon.PkgPath)}
+				g := cc.evalWith(e, tr, s, rs, vars)
+				name := fmt.Sprintf("%s/region:%s#%d/transition#%d", e.funcKey, key, ord, i+1)
+				if e.quiet == 0 {
+					e.obls = append(e.obls, &Obligation{Name: name, Kind: "monitor", Pos: ins.Pos(), Goal: g, Hyp: s.pc, Func: e.funcKey,
+						Text: tr.Text, Props: unionProps(e.props, mon.Props, tr.Props), Mode: e.mode, exec: e})
+				}
 			}
 		}
 		s.held = append(s.held[:idx], s.held[idx+1:]...)
@@ -283,10 +309,10 @@ func (e *Exec) makeMap(s *State, x *ssa.MakeMap) Value {
 	dom, ks := e.mapHeaps(s, mt)
 	dsort := arraySort(ks, "Bool")
 	h := e.heap(s, dom, arraySort(RefSort, dsort))
-	e.setHeap(s, dom, Store(h, r, zeroOfSort(dsort)))
+	e.setHeap(s, dom, Store(h, r, zeroOfSort(dsort)), r)
 	ln := "M:" + typeKey(mt) + ".len"
 	lh := e.heap(s, ln, arraySort(RefSort, e.mode.idxSort()))
-	e.setHeap(s, ln, Store(lh, r, e.idx(0)))
+	e.setHeap(s, ln, Store(lh, r, e.idx(0)), r)
 	return r
 }
 
@@ -326,17 +352,17 @@ func (e *Exec) mapSet(s *State, mt *types.Map, m, k *Node, val Value) {
 	dsort := arraySort(ks, "Bool")
 	h := e.heap(s, dom, arraySort(RefSort, dsort))
 	had := Select(Select(h, m), k)
-	e.setHeap(s, dom, Store(h, m, Store(Select(h, m), k, tTrue)))
+	e.setHeap(s, dom, Store(h, m, Store(Select(h, m), k, tTrue)), m)
 	ls := e.mode.leaves(mt.Elem())
 	vs := leavesOf(val)
 	for i, li := range ls {
 		name := "M:" + typeKey(mt) + ".val" + li.Path
 		vh := e.heap(s, name, arraySort(RefSort, arraySort(ks, li.Sort)))
-		e.setHeap(s, name, Store(vh, m, Store(Select(vh, m), k, vs[i])))
+		e.setHeap(s, name, Store(vh, m, Store(Select(vh, m), k, vs[i])), m)
 	}
 	ln := "M:" + typeKey(mt) + ".len"
 	lh := e.heap(s, ln, arraySort(RefSort, e.mode.idxSort()))
-	e.setHeap(s, ln, Store(lh, m, Ite(had, Select(lh, m), e.iadd(Select(lh, m), e.idx(1)))))
+	e.setHeap(s, ln, Store(lh, m, Ite(had, Select(lh, m), e.iadd(Select(lh, m), e.idx(1)))), m)
 }
 
 func (e *Exec) mapDelete(s *State, mt *types.Map, m *Node, key Value) {
@@ -346,10 +372,10 @@ func (e *Exec) mapDelete(s *State, mt *types.Map, m *Node, key Value) {
 	h := e.heap(s, dom, arraySort(RefSort, dsort))
 	had := And(Not(Eq(m, IntLit(0))), Select(Select(h, m), k))
 	// deleting from a nil map is a no-op: guard the store
-	e.setHeap(s, dom, Ite(Eq(m, IntLit(0)), h, Store(h, m, Store(Select(h, m), k, tFalse))))
+	e.setHeap(s, dom, Ite(Eq(m, IntLit(0)), h, Store(h, m, Store(Select(h, m), k, tFalse))), m)
 	ln := "M:" + typeKey(mt) + ".len"
 	lh := e.heap(s, ln, arraySort(RefSort, e.mode.idxSort()))
-	e.setHeap(s, ln, Ite(had, Store(lh, m, e.isub(Select(lh, m), e.idx(1))), lh))
+	e.setHeap(s, ln, Ite(had, Store(lh, m, e.isub(Select(lh, m), e.idx(1))), lh), m)
 }
 
 // ---------- range over map / string ----------
